@@ -3,6 +3,7 @@
 import json, glob, os, re
 ROOT = os.path.dirname(os.path.dirname(os.path.abspath(__file__)))
 rows = []
+rounds = {}
 for f in sorted(glob.glob(os.path.join(ROOT, "seeded", "*", "meta.json"))):
     m = json.load(open(f))
     sid = os.path.basename(os.path.dirname(f))
@@ -13,6 +14,15 @@ for f in sorted(glob.glob(os.path.join(ROOT, "seeded", "*", "meta.json"))):
     res = "caught (quick tier)" if caught else "MISSED at first trial"
     if note:
         res += " — " + note
+    rd = "1" if "-r" not in sid else sid.split("-r")[1]
+    st = rounds.setdefault(rd, {"seeds": 0, "caught": 0, "missed": [], "reclosed": 0})
+    st["seeds"] += 1
+    if caught:
+        st["caught"] += 1
+    else:
+        st["missed"].append(m.get("property", sid))
+        if any(r.get("caught") for r in m.get("retrials", [])):
+            st["reclosed"] += 1
     rows.append(f"| {sid} | {m.get('property', sid)} | {what[:260]} | {needs[:220]} | {res} |")
 sec = """## 10. Seeded changes (independent sub-agents) and which checks catch them
 
@@ -23,9 +33,20 @@ packages (and their in-repo importers) pass unedited with the patch, and the dem
 The check of the same property was then run against the patched worktree (`VERIF_REPO`, quick tier, seed 1).
 Files: `/verif/seeded/<id>/{patch.diff, zz_seed_*_test.go, run.txt, meta.json, confirm.log}`.
 
+Per round (each later round was told the earlier rounds' changes and asked for a different kind; a miss was
+answered by describing the *input class* — never the patch — to the check's builder, who wrote an own mutation
+of that class, widened the generator/model until the quick tier reported it, and the stored seed was then
+re-tried, `retrials` in meta.json):
+
+| round | seeds stored | caught at first trial | missed at first trial | of those, caught at re-trial after strengthening |
+|---|---|---|---|---|
+ROUNDROWS
+
 | seed | property | change | needs, to manifest | result |
 |---|---|---|---|---|
-""" + "\n".join(rows) + "\n"
+""".replace("ROUNDROWS", "\n".join(
+    f"| {k} | {v['seeds']} | {v['caught']} | {len(v['missed'])} ({', '.join(sorted(v['missed'])) or '—'}) | {v['reclosed']} |"
+    for k, v in sorted(rounds.items()))) + "\n".join(rows) + "\n"
 p = os.path.join(ROOT, "DESIGN.md")
 s = open(p).read()
 if "## 10. Seeded changes" in s:
